@@ -39,13 +39,14 @@ type eth struct{}
 
 // PubKeyToAddr public key to address
 func (e *eth) PubKeyToAddr(pubKey []byte) string {
+	// 缓存未格式化的地址: 格式化结果依赖当前区块高度(ForkFormatAddressKey), 不能缓存
 	pubStr := string(pubKey)
 	if value, ok := addrCache.Get(pubStr); ok {
-		return value.(string)
+		return formatAddr(value.(string))
 	}
-	addr := pubKey2EthAddr(pubKey)
+	addr := rawPubKey2EthAddr(pubKey)
 	addrCache.Add(pubStr, addr)
-	return addr
+	return formatAddr(addr)
 }
 
 // ValidateAddr address validation
@@ -89,14 +90,19 @@ func formatAddr(addr string) string {
 
 // pubKey2EthAddr format eth addr
 func pubKey2EthAddr(pubKey []byte) string {
+	return formatAddr(rawPubKey2EthAddr(pubKey))
+}
+
+// rawPubKey2EthAddr eth addr before chain33 formatting
+func rawPubKey2EthAddr(pubKey []byte) string {
 
 	pub, err := crypto.DecompressPubkey(pubKey)
 	// ecdsa public key, compatible with ethereum, get address from eth api
 	if err == nil {
-		return formatAddr(crypto.PubkeyToAddress(*pub).String())
+		return crypto.PubkeyToAddress(*pub).String()
 	}
 	// just format as eth address if pubkey not compatible
 	var a common.Address
 	a.SetBytes(crypto.Keccak256(pubKey[1:])[12:])
-	return formatAddr(a.String())
+	return a.String()
 }
